@@ -9,7 +9,7 @@ Coq model and thereby compared: I*, w_max, the error columns, the repetition cap
 (compute_edge_max_reachable_value incl. all reachability, SCC forcing), the walk block, zero / fix rows or
 queued bounds, the three product encodings for Pi and Gamma, 9aa / 9ab, the objective."""
 import networkx as nx
-import common, lpdump, e1, e1cyc, e1err, gen, gen2
+import common, lpdump, e1, e1cyc, e1err, errlib, gen, gen2
 
 SOLVER = {"threads": 1, "time_limit": 20}
 CMD = {"kLeastAbsErrorsCycles": ("klaec", "WalkErrEnc.encode_klae_cycles"), "kMinPathErrorCycles": ("kmpec", "WalkErrEnc.encode_kmpe_cycles")}
@@ -100,54 +100,59 @@ def run_e1_cycles(ctx, cls_name, rand_instance, n, stream):
     import flowpaths as fp
     lpdump.install()
     cls = getattr(fp, cls_name)
-    reported = 0
+    reported = [0]
     for i in range(n):
-        rng = ctx.rng(stream, i)
-        args, is_int = rand_instance(rng)
-        args = dict(args, k=rng.choice([1, 2, 2, 3, None]), solver_options=dict(SOLVER))
-        G = args["G"]
-        if rng.random() < 0.3:
-            args["additional_starts"] = [rng.choice(list(G.nodes()))]
-        if rng.random() < 0.3:
-            args["additional_ends"] = [rng.choice(list(G.nodes()))]
-        mode = "edge"
-        if rng.random() < 0.25:
-            args = node_mode_copy(rng, args); mode = "node"
-        elif rng.random() < 0.35:
-            walks = [w for w in (gen.rand_walk(rng, G, maxlen=8) for _ in range(2)) if w]
-            cons = gen2.rand_subset_constraints(rng, walks) if walks else []
-            if cons:
-                args["subset_constraints"] = cons
-                if rng.random() < 0.4:
-                    args["subset_constraints_coverage"] = rng.choice([0.5, 0.75])
-        opts = gen2.rand_walk_opts(rng, n=(i % 64) if i % 3 == 0 else None)
-        if rng.random() < 0.15:
-            opts = dict(opts, allow_empty_walks=True)
-        args["optimization_options"] = dict(opts)
-        a = {k: (dict(v) if isinstance(v, dict) else (list(v) if isinstance(v, list) else v)) for k, v in args.items()}
-        lpdump.reset()
-        try:
-            m = cls(**a)
-        except (ValueError, OverflowError) as e:
-            ctx.dist("E1_cycles ctor " + type(e).__name__); continue
-        except Exception as e:
-            if not has_weighted_element(args):
-                # every weighted element is ignored / scaled by 0: outside the properties' domain (DESIGN §6 #24)
-                ctx.dist("E1_cycles skipped: no non-ignored weighted element"); continue
-            ctx.report(f"{cls_name} raised {e!r} at construction", {"class": cls_name, "args": _describe(args)}); continue
-        d, impl = compare(ctx, cls_name, m, args)
-        ctx.dist("E1_cycles mode:" + mode)
-        wf = getattr(m, "walks_to_fix", None) or []
-        for flag, name in ((bool(wf), "walks_to_fix non-empty"), (bool(m.edges_set_to_zero), "zero rows"), (bool(m.edges_set_to_one), "Pi=W shortcut"),
-                           (bool(m.subset_constraints), "subset constraints"), (not nx.is_directed_acyclic_graph(args["G"]), "graph has a cycle"),
-                           (bool(args.get("additional_starts") or args.get("additional_ends")), "additional starts/ends"),
-                           (bool(args.get("error_scaling")), "error_scaling"), (bool(args.get("elements_to_ignore")), "ignore list"),
-                           (args.get("k") is None, "k=None")):
-            if flag:
-                ctx.dist("E1_cycles " + name)
-        if d:
-            reported += 1
-            if reported <= 3:      # keep room for concrete failing inputs found by the E2 sections
-                ctx.report(f"E1 correspondence broken: LP of {cls_name} differs from {CMD[cls_name][1]}: " + "; ".join(d[:3]),
-                           {"class": cls_name, "args": _describe(args), "diff": d[:12], "section": "E1_cycles"}, concrete=False)
-        ctx.case(["e1-cyc", cls_name, _describe(args)], nontrivial=len(impl["rows"]) > 20)
+        def _one(cur):
+            rng = ctx.rng(stream, i)
+            args, is_int = rand_instance(rng)
+            args = dict(args, k=rng.choice([1, 2, 2, 3, None]), solver_options=dict(SOLVER))
+            cur["args"] = args
+            G = args["G"]
+            if rng.random() < 0.3:
+                args["additional_starts"] = [rng.choice(list(G.nodes()))]
+            if rng.random() < 0.3:
+                args["additional_ends"] = [rng.choice(list(G.nodes()))]
+            mode = "edge"
+            if rng.random() < 0.25:
+                args = node_mode_copy(rng, args); mode = "node"
+                cur["args"] = args
+            elif rng.random() < 0.35:
+                walks = [w for w in (gen.rand_walk(rng, G, maxlen=8) for _ in range(2)) if w]
+                cons = gen2.rand_subset_constraints(rng, walks) if walks else []
+                if cons:
+                    args["subset_constraints"] = cons
+                    if rng.random() < 0.4:
+                        args["subset_constraints_coverage"] = rng.choice([0.5, 0.75])
+            opts = gen2.rand_walk_opts(rng, n=(i % 64) if i % 3 == 0 else None)
+            if rng.random() < 0.15:
+                opts = dict(opts, allow_empty_walks=True)
+            args["optimization_options"] = dict(opts)
+            a = {k: (dict(v) if isinstance(v, dict) else (list(v) if isinstance(v, list) else v)) for k, v in args.items()}
+            cur["args"] = a
+            lpdump.reset()
+            try:
+                m = cls(**a)
+            except (ValueError, OverflowError) as e:
+                ctx.dist("E1_cycles ctor " + type(e).__name__); return
+            except Exception as e:
+                if not has_weighted_element(args):
+                    # every weighted element is ignored / scaled by 0: outside the properties' domain (DESIGN §6 #24)
+                    ctx.dist("E1_cycles skipped: no non-ignored weighted element"); return
+                ctx.report(f"{cls_name} raised {e!r} at construction", {"class": cls_name, "args": _describe(args)}); return
+            d, impl = compare(ctx, cls_name, m, args)
+            ctx.dist("E1_cycles mode:" + mode)
+            wf = getattr(m, "walks_to_fix", None) or []
+            for flag, name in ((bool(wf), "walks_to_fix non-empty"), (bool(m.edges_set_to_zero), "zero rows"), (bool(m.edges_set_to_one), "Pi=W shortcut"),
+                               (bool(m.subset_constraints), "subset constraints"), (not nx.is_directed_acyclic_graph(args["G"]), "graph has a cycle"),
+                               (bool(args.get("additional_starts") or args.get("additional_ends")), "additional starts/ends"),
+                               (bool(args.get("error_scaling")), "error_scaling"), (bool(args.get("elements_to_ignore")), "ignore list"),
+                               (args.get("k") is None, "k=None")):
+                if flag:
+                    ctx.dist("E1_cycles " + name)
+            if d:
+                reported[0] += 1
+                if reported[0] <= 3:      # keep room for concrete failing inputs found by the E2 sections
+                    ctx.report(f"E1 correspondence broken: LP of {cls_name} differs from {CMD[cls_name][1]}: " + "; ".join(d[:3]),
+                               {"class": cls_name, "args": _describe(args), "diff": d[:12], "section": "E1_cycles"}, concrete=False)
+            ctx.case(["e1-cyc", cls_name, _describe(args)], nontrivial=len(impl["rows"]) > 20)
+        errlib.guarded(ctx, 'cyclic-E1', f"{cls_name} {stream}#{i}", _one)
